@@ -515,7 +515,11 @@ func c03Reset(r *core.Run, rule string) {
 	}
 	restorers := map[*ssa.Function]bool{}
 	for _, fn := range p.ModuleFuncs() {
-		if rn := core.RecvNamed(fn); rn != nil && rn.Obj().Name() == "Channel" && restores(fn) {
+		owner := fn
+		if fn.Parent() != nil {
+			owner = fn.Parent() // a function literal inside a channel method (e.g. a deferred clean-up)
+		}
+		if rn := core.RecvNamed(owner); rn != nil && rn.Obj().Name() == "Channel" && restores(fn) {
 			restorers[fn] = true
 		}
 	}
